@@ -20,6 +20,7 @@ type chainRoles struct {
 	applyBlockFn, revertBlockFn            *types.Func // consensus.ApplyBlock / RevertBlock
 	tipState, store, txpool, onReorg, onPool, mu *types.Var
 	methods                                []*ir.Func
+	vs                                     *ir.ViewSet // chain's functions with helpers expanded, role functions kept as calls
 }
 
 func getChainRoles(p *ir.Prog) *chainRoles {
@@ -68,15 +69,23 @@ func getChainRoles(p *ir.Prog) *chainRoles {
 	if r.reorgTo == nil {
 		ir.Fail("Manager method walking the tip (calls both the apply and the revert step) not found")
 	}
+	roles := map[*types.Func]bool{r.applyTip.Obj: true, r.revertTip.Obj: true, r.reorgTo.Obj: true}
+	r.vs = p.Views("chain", ir.ExpandOpt{Key: "chain-roles", Stop: func(fn *types.Func) bool { return roles[fn] }})
 	return r
 }
 
-// gatedCallers lists Manager methods (other than the walker itself) that call the tip walker.
+// view returns f with its unexported helpers expanded (role functions stay calls).
+func (r *chainRoles) view(f *ir.Func) *ir.Func { return r.vs.Of(f) }
+
+// gatedCallers lists the functions of the package (other than the walker
+// itself) that call the tip walker, directly or through helpers: each is
+// returned as its expanded view, and helpers absorbed by their callers are
+// not listed on their own.
 func (r *chainRoles) gatedCallers() []*ir.Func {
 	var out []*ir.Func
-	for _, f := range r.methods {
-		if f != r.reorgTo && len(f.CallsTo(false, r.reorgTo.Obj)) > 0 {
-			out = append(out, f)
+	for _, v := range r.vs.Roots {
+		if v.Base != r.reorgTo && len(v.CallsTo(true, r.reorgTo.Obj)) > 0 {
+			out = append(out, v)
 		}
 	}
 	return out
